@@ -1,5 +1,7 @@
 import LapyVerif.Props.C01
 import LapyVerif.Bridge.Fem
+import LapyVerif.Bridge.SolverAniso
+import LapyVerif.Bridge.CurvTria
 /- axiom audit of C01: every property theorem and every bridge it rests on -/
 #print axioms LapyVerif.Props.C01.stiff_form
 #print axioms LapyVerif.Props.C01.stiff_form_symm
@@ -22,3 +24,15 @@ import LapyVerif.Bridge.Fem
 #print axioms LapyVerif.Bridge.fem_tria_AL
 #print axioms LapyVerif.Bridge.fem_aniso_A
 #print axioms LapyVerif.Bridge.fem_tet_A
+#print axioms LapyVerif.Bridge.solver_aniso_pc
+#print axioms LapyVerif.Bridge.solver_aniso_gen_A
+#print axioms LapyVerif.Bridge.solver_aniso_A
+#print axioms LapyVerif.Bridge.solver_aniso_scalar
+#print axioms LapyVerif.Bridge.solver_aniso_lump_A
+#print axioms LapyVerif.Bridge.solver_aniso_B
+#print axioms LapyVerif.Bridge.solver_aniso_smooth
+#print axioms LapyVerif.Bridge.proj_eq
+#print axioms LapyVerif.Bridge.curv_tria_umin
+#print axioms LapyVerif.Bridge.curv_tria_umax
+#print axioms LapyVerif.Bridge.curv_tria_c
+#print axioms LapyVerif.Bridge.curv_tria_smooth
